@@ -610,10 +610,16 @@ class CountingEmbedding(Embedding):
     def __init__(self, c, dim):
         super().__init__(c, dim)
         self.calls = 0
+        self.percount = {}      # point -> computations since the positions were last cleared
 
     def computePositionOf(self, s):
         self.calls += 1
+        self.percount[s] = self.percount.get(s, 0) + 1
         return super().computePositionOf(s)
+
+    def clearPositions(self):
+        self.percount = {}
+        return super().clearPositions()
 
 
 # ---------------------------------------------------------------------------------------------------------
